@@ -8,6 +8,7 @@ package pkglint
 // part of /repo.
 
 import (
+	"bytes"
 	"encoding/hex"
 	"io"
 	"os"
@@ -33,6 +34,7 @@ type VerifC20Op struct {
 	To        string
 	Content   string
 	Remove    bool
+	Fail      []int // S: the files whose rewrite is made to fail (a <file>.pkglint.tmp exists already)
 }
 
 type VerifC20Obs struct {
@@ -42,6 +44,8 @@ type VerifC20Obs struct {
 	//   fix-leaked           a fix through one view changed what another view shows
 	//   stale                this Load differs from a direct read of the file (compare Token)
 	//   bookkeeping:<what>   table and mapping of the real cache are out of step after this operation
+	//   once-state-leaked    a *Line returned by this Load already carries Line.once state (FirstTime was false)
+	//   save-failed          SaveAutofixChanges reported "Cannot write" for a blocked file
 	Flags []string
 }
 
@@ -169,8 +173,11 @@ func verifC20Bookkeeping(capacity int) string {
 	return ""
 }
 
+var verifC20Err bytes.Buffer
+
 func verifC20Reset(capacity int, mode string) {
-	G = NewPkglint(io.Discard, io.Discard)
+	verifC20Err.Reset()
+	G = NewPkglint(io.Discard, &verifC20Err)
 	G.fileCache = NewFileCache(capacity)
 	switch mode {
 	case "s":
@@ -280,6 +287,14 @@ func VerifFileCacheScript(dir string, capacity int, mode string, files map[int]s
 					for _, line := range lines.Lines {
 						handedOut[line] = true
 					}
+					// mark every handed-out Line the way a check does (Line.once):
+					// a Line that a Load returns must not carry such a mark yet
+					for _, line := range lines.Lines {
+						if !line.once.FirstTime("verif-c20-mark") {
+							obs.Flags = append(obs.Flags, "once-state-leaked")
+							break
+						}
+					}
 					views = append(views, lines)
 					viewKey = append(viewKey, op.Key)
 					verifC20ViewKeys = viewKey
@@ -334,7 +349,25 @@ func VerifFileCacheScript(dir string, capacity int, mode string, files map[int]s
 				for _, k := range keys {
 					inos[k] = verifC20Ino(VerifC20Path(dir, k, 0))
 				}
-				SaveAutofixChanges(views[op.View])
+				var blockers []string
+				for _, k := range op.Fail {
+					tmp := VerifC20Path(dir, k, 0).String() + ".pkglint.tmp"
+					if err := os.WriteFile(tmp, []byte("left over\n"), 0o644); err == nil {
+						blockers = append(blockers, tmp)
+					}
+				}
+				verifC20Err.Reset()
+				func() {
+					defer func() {
+						for _, tmp := range blockers {
+							_ = os.Remove(tmp)
+						}
+					}()
+					SaveAutofixChanges(views[op.View])
+				}()
+				if strings.Contains(verifC20Err.String(), "Cannot write") {
+					obs.Flags = append(obs.Flags, "save-failed")
+				}
 				delete(pending, op.View)
 				var written []string
 				sorted := append([]int(nil), keys...)
